@@ -169,9 +169,11 @@ static void chain_case(Tape& t, Ctx& c)
     case O_LAYOUT: {
       opname = "layout-rebuild"; h.set("op", opname); hist.add(h); c.desc.set("history", hist); c.op = opname + "@" + kind_name[src.kind]; c.label("op:" + opname); c.announce();
       dst.reset(); dst.kind = src.kind; dst.model = src.model; dst.vg = next_group++; dst.ig = src.ig;
-      switch(src.kind) { case K_C64: dst.c64 = C64(src.c64.layout()); dst.c64.copy(src.c64); break; case K_C32: dst.c32 = C32(src.c32.layout()); dst.c32.copy(src.c32); break;
-        case K_B22: dst.b22 = B22(src.b22.layout()); dst.b22.copy(src.b22); break; case K_B23: dst.b23 = B23(src.b23.layout()); dst.b23.copy(src.b23); break; case K_SC: dst.sc = SC(src.sc.layout()); dst.sc.copy(src.sc); break;
-        default: dst.bd = BD(src.bd.layout()); dst.bd.copy(src.bd); }
+      { // construct from the layout, or ASSIGN the layout to an object that is empty or already holds arrays of its own
+        const int lv = t.range(0, 2); static const char* lvn[] = {"layout:construct", "layout:assign-to-empty", "layout:assign-over-filled"}; c.label(lvn[lv]);
+        auto rebuild = [&](auto& d, const auto& sm) { typedef std::decay_t<decltype(d)> M; if(lv == 0) d = M(sm.layout()); else { if(lv == 2) d = sm.clone(CloneMode::Deep); d = sm.layout(); } d.copy(sm); };
+        switch(src.kind) { case K_C64: rebuild(dst.c64, src.c64); break; case K_C32: rebuild(dst.c32, src.c32); break; case K_B22: rebuild(dst.b22, src.b22); break; case K_B23: rebuild(dst.b23, src.b23); break;
+          case K_SC: rebuild(dst.sc, src.sc); break; default: rebuild(dst.bd, src.bd); } }
       break; }
     case O_GRAPH: {
       opname = "graph-rebuild"; h.set("op", opname); hist.add(h); c.desc.set("history", hist); c.op = opname + "@" + kind_name[src.kind]; c.label("op:" + opname); c.announce();
